@@ -206,7 +206,9 @@ def _find_ocean_floor_indexes(
     # Item 0 in the column will be nan, resulting in nan in the output as desired.
     depth_indexes = (data_array * 0 + 1).cumsum(str(depth_dimension))
     max_depth_indexes = depth_indexes.argmax(str(depth_dimension))
-    return cast(xarray.DataArray, max_depth_indexes)
+    # The indexes are used to select one layer per column.
+    # xarray can not index with an array that dask has not computed yet.
+    return cast(xarray.DataArray, max_depth_indexes.compute())
 
 
 def normalize_depth_variables(
